@@ -27,6 +27,8 @@ def fields(raw):
             while q is not None and q + 4 <= body_end:
                 st_, sl = raw[q], struct.unpack('>H', raw[q + 2:q + 4])[0]
                 out += [(q, 1, 'sub-type'), (q + 2, 2, 'sub-len')]
+                if st_ == 0x51 and it == 0x50 and q + 8 <= body_end:
+                    out.append((q + 4, 4, 'maxlen-val'))
                 if st_ in (0x54, 0x56, 0x59) and q + 6 <= body_end:
                     out.append((q + 4, 2, 'uid-len'))
                 if st_ == 0x58 and q + 8 <= body_end:
@@ -109,6 +111,11 @@ def mutants_of(raw):
             for v in (0, 8, 0x11, 0x57, 0xFF):
                 if v != cur:
                     out.append(('%s@%d=%02X' % (kind, off, v), put(raw, off, 1, v)))
+        elif kind == 'maxlen-val':
+            # the value a peer announces as its maximum PDU length: any 32-bit number, also absurdly small ones
+            for v in (0, 1, 5, 6, 7, 8, 12, 0x7FFFFFFF, 0xFFFFFFFF):
+                if v != cur:
+                    out.append(('maxlen-val@%d=%d' % (off, v), put(raw, off, 4, v)))
         elif kind == 'pdv-hdr':
             for v in (4, 7, 0x80, 0xFF):
                 out.append(('pdv-hdr@%d=%d' % (off, v), put(raw, off, 1, v)))
